@@ -240,7 +240,7 @@ func (fc *FuncCtx) execCall(fr *Frame, st *State, site ssa.Instruction, c *ssa.C
 		r, _ := fc.intrinsic(fr, st, fn, c, args, pos)
 		return r
 	}
-	con := fc.eng.contractFor(fn)
+	con := fc.eng.contractForCall(fn, c)
 	fc.atCallClauses(fr, st, site, short, full, extra, pos)
 	fc.bumpCalls(st, short)
 	if con != nil && con.Flags["inline"] == "" {
@@ -436,8 +436,15 @@ func (fc *FuncCtx) assignPattern(p string, con *Contract) string {
 	if strings.Contains(p, "!") {
 		return p
 	}
+	pk := con.Pkg
+	if pk == "" {
+		pk = fc.pkgPath
+	}
 	if strings.HasPrefix(p, "elems(") && strings.HasSuffix(p, ")") {
 		t := p[6 : len(p)-1]
+		if tt := fc.eng.lookupType(pk, t); tt != nil {
+			return "E!" + typeKey(tt)
+		}
 		return "E!" + canonTypeName(t)
 	}
 	if strings.HasPrefix(p, "ghost ") {
@@ -449,7 +456,6 @@ func (fc *FuncCtx) assignPattern(p string, con *Contract) string {
 	// T.f : field of a struct type in the contract's package
 	if dot := strings.Index(p, "."); dot > 0 {
 		tn := p[:dot]
-		pk := con.Pkg
 		if t := fc.eng.lookupType(pk, tn); t != nil {
 			return "O!" + typeKey(t) + p[dot:]
 		}
